@@ -1,4 +1,4 @@
-From SV Require Import Model.Common Model.Client Model.ClientAccept.
+From SV Require Import Model.Common Model.Client Model.ClientAccept Model.Datadog.
 From Coq Require Import ExtrOcamlBasic.
 Definition run_line_model := run_line run_case_C02.
 Extraction "model.ml" run_line_model.
